@@ -140,10 +140,20 @@ def build(shapes, seed=0, mode="binds", formname="data", homonyms=False):
                 chosen = [o for o in opts if rnd.random() < 0.6]
                 if rnd.random() < 0.4:
                     chosen += [("location-priority", rnd.choice(["balanced", "high-accuracy", "low-power", "no-power"])), ("location-min-interval", "60"), ("location-max-age", "120")]
+                extra = []
+                if rnd.random() < 0.5:
+                    # the audit row's own logic cells go on the same bind, beside the parameter-derived attributes
+                    u = _uniq(n, "relevant")
+                    row[f.hdr("relevant")] = f"'{u}' = '{u}'"
+                    extra.append(["relevant", f"'{u}' = '{u}'", "lit"])
+                    if rnd.random() < 0.5:
+                        row[f.hdr("custom_a")] = _uniq(n, "custom_a")
+                        extra.append(["custom_a", _uniq(n, "custom_a"), "lit"])
                 if chosen:
                     rnd.shuffle(chosen)
                     row["parameters"] = rnd.choice([" ", ";", ", "]).join(f"{k}={v}" for k, v in chosen)
-                    f.binds.append([["meta", "audit"], [[f"odk:{k}", v, "lit"] for k, v in chosen]])
+                if chosen or extra:
+                    f.binds.append([["meta", "audit"], [[f"odk:{k}", v, "lit"] for k, v in chosen] + extra])
             f.rows.append(row)
             continue
         path = [s for s, _ in f.stack] + [name]
@@ -268,6 +278,8 @@ def build(shapes, seed=0, mode="binds", formname="data", homonyms=False):
                 row["trigger"] = "${" + tname + "}"
                 if f.hdr("calculate") not in row:
                     row[f.hdr("calculate")] = f"concat('{n}', 't')"
+                if rnd.random() < 0.2:
+                    row[f.hdr("calculate")] = rnd.choice(YESNO)         # a triggered calculation that is a bare truth word is still the action's value, not a bind attribute
                 attrs = [a for a in attrs if a[0] != "calculate"]
         if mode == "defaults" and not is_section and shape in ("text", "typed", "calc", "sel1", "selm", "upload", "hidden", "trigger", "range"):
             r = rnd.random()
@@ -291,6 +303,8 @@ def build(shapes, seed=0, mode="binds", formname="data", homonyms=False):
                 hc = qtype == "calculate" or rnd.random() < 0.6
                 if hc and f.hdr("calculate") not in row:
                     row[f.hdr("calculate")] = f"concat('{n}', 'x')" if not ref or rnd.random() < 0.5 else f"concat({ref}, '{n}')"
+                if hc and rnd.random() < 0.15:
+                    row[f.hdr("calculate")] = rnd.choice(YESNO)
                 calc = row.get(f.hdr("calculate"))
                 f.triggers.append([path, tpath, False, bool(calc), norm_src_expr(calc) if calc else ""])
                 attrs = [a for a in attrs if a[0] != "calculate"]
